@@ -265,9 +265,12 @@ class Vector(Base):
 
     def dot(self, other):
         out = np.zeros(self.shape)
+        unit = self.unit * other.unit
         for c1, c2 in zip(self._xyz.values(), other._xyz.values()):
-            out += (c1 * c2).values
-        return Array(values=out, unit=self.unit * other.unit)
+            prod = c1 * c2
+            out += prod.values
+            unit = prod.unit
+        return Array(values=out, unit=unit)
 
     def cross(self, other):
         x = self.y * other.z
